@@ -89,7 +89,12 @@ func c14Register(steps int) {
 		switch sym.Choose("op", 3) {
 		case 0: // remote set
 			v, wellTyped, x := zzWrite()
-			out := zzRoundTrip(a, zzFrame(net.Call, sid, 1, 6, id, append(append([]byte{}, name...), zzValueBytes(v)...)))
+			// the property may be named by its name or by its id
+			key := name
+			if sym.Bool("by-id") {
+				key = zzValueBytes(value.Uint(zzPropID))
+			}
+			out := zzRoundTrip(a, zzFrame(net.Call, sid, 1, 6, id, append(append([]byte{}, key...), zzValueBytes(v)...)))
 			sym.Assert(len(out) == 1, "set-answered")
 			accepted := len(out) == 1 && out[0].Header.Type == net.Reply
 			if wellTyped {
@@ -194,4 +199,49 @@ func C14Concurrent() {
 		sym.Assert(sym.Or(sym.EqBytes(last.Payload, zzValueBytes(value.Int(x))), sym.EqBytes(last.Payload, zzValueBytes(value.Int(y)))), "register-holds-one-of-the-writes")
 	}
 	sym.Reach("concurrent-done")
+}
+
+// C14UpdateRace: three subscribers of a property; a service-side update is being announced while the
+// middle subscriber unregisters: the two others get exactly one change event for that accepted write.
+func C14UpdateRace() {
+	o := zzPropObject(-1 << 31)
+	front := o.front.(*stubObject)
+	h := front.signal
+	h.Activate(Activation{ServiceID: 9, ObjectID: 1})
+	streams := []*zzStream{newZZStream(), newZZStream(), newZZStream()}
+	chans := make([]Channel, 3)
+	marks := make([]int, 3)
+	for i := range chans {
+		chans[i] = NewChannel(net.NewEndPoint(streams[i]), DefaultCap())
+		msg := zzFrame(net.Call, 9, 1, 0, uint32(10+i), zzRegisterPayload(1, zzPropID, uint64(70+i)))
+		sym.Assert(h.RegisterEvent(&msg, chans[i]) == nil, "register-ok")
+		marks[i] = len(streams[i].sentMessages())
+	}
+	x := sym.I32("value")
+	done := make(chan bool, 2)
+	go func() {
+		sym.Assert(o.front.UpdateProperty(zzPropID, "i", zzLE32(uint32(x))) == nil, "update-ok")
+		done <- true
+	}()
+	go func() {
+		msg := zzFrame(net.Call, 9, 1, 1, 40, zzRegisterPayload(1, zzPropID, 71))
+		h.UnregisterEvent(&msg, chans[1])
+		done <- true
+	}()
+	<-done
+	<-done
+	events := func(i int) int {
+		n := 0
+		for _, f := range streams[i].sentMessages()[marks[i]:] {
+			if f.Header.Type == net.Event {
+				n++
+				sym.Assert(sym.EqBytes(f.Payload, zzLE32(uint32(x))), "event-carries-new-value")
+			}
+		}
+		return n
+	}
+	sym.Assert(events(0) == 1, "first-subscriber-event-count")
+	sym.Assert(events(2) == 1, "last-subscriber-event-count")
+	sym.Assert(events(1) <= 1, "leaving-subscriber-event-count")
+	sym.Reach("update-race-done")
 }
